@@ -18,6 +18,8 @@ From TS Require Proofs.C15_GoItem Proofs.C15_GoFile.
 From TS Require Import Spec.C15RenderScPy.
 From TS Require Proofs.C15_ScalaItem.
 From TS Require Proofs.C15_PythonItem.
+From TS Require Import Spec.C15RenderKtSc.
+From TS Require Proofs.C15_KotlinFile.
 Import ListNotations.
 
 (* ---- front end (after the repair of parse_comment_attrs): a doc attribute with value v - which is what `/// v`,
@@ -710,3 +712,50 @@ Theorem C15_py_item_line_free : forall (uc : unicode) (cfg : py_config),
     c15_contained C15py LCode (mark (c15_file_pieces C15py parts)) = true.
 Proof. exact Proofs.C15_PythonItem.C15_py_item_line_free. Qed.
 Print Assumptions C15_py_item_line_free.
+
+(* ======================= Kotlin, WHOLE FILES =======================
+   kt_generate: the header (unless the package name is empty: the version block comment `/** .. Generated by typeshare
+   <version> .. */` unless no_version_header is set, the line `package <name>`, the two import lines for Serializable and
+   SerialName), then the items in topological order; Kotlin's printer has no state and its end_file writes nothing.  No
+   neutrality hypothesis.  For every parsed program whose items are in the class of C15_kt_item (c15_item_strict), with a
+   plain prefix and plain type_mappings targets as there, a plain package name (no `/`, no double or single quote: it is
+   printed bare) and a version string without `*` and `/` ([c15_version_nested_ok], Spec/C15RenderKtSc.v: it is printed
+   inside a block comment, which nests for the Kotlin reference lexer): the generated file is code parts and `/// `
+   fragments whose doc strings are exactly the doc strings of the items in output order (a permutation of the program's
+   items; per item the helper data classes first) - the header contributes none, it is code the lexer reads from code mode
+   back into code mode - and the file is contained iff all these strings are safe_kt (no LF / CR).  A program with a
+   constant is not generated at all (kotlin.rs write_const is an error), so the statement is about the three other item
+   kinds.  Second theorem: with doc strings free of line breaks (every parsed item: C15_parsed_*_line_free) the file is
+   contained. ---- *)
+Theorem C15_kt_file : forall (uc : unicode) (cfg : kt_config),
+  c15_plain C15kt (kt_prefix cfg) = true ->
+  c15_mappings_plain C15kt (kt_type_mappings cfg) = true ->
+  c15_plain C15kt (kt_package cfg) = true ->
+  c15_version_nested_ok (kt_version cfg) = true ->
+  forall pd text,
+  forallb (c15_item_strict C15kt Kotlin) (items_of pd) = true ->
+  kt_generate uc cfg pd = Ok text ->
+  exists items parts,
+    topsort (items_of pd) = Ok items /\ Permutation items (items_of pd) /\
+    text = text_of (c15_file_pieces C15kt parts) /\
+    docs_of (c15_file_pieces C15kt parts) = flat_map c15_item_docs_helpers_first items /\
+    c15_contained C15kt LCode (mark (c15_file_pieces C15kt parts)) =
+    forallb safe_kt (flat_map c15_item_docs_helpers_first items).
+Proof. exact Proofs.C15_KotlinFile.C15_kt_file. Qed.
+Print Assumptions C15_kt_file.
+Theorem C15_kt_file_line_free : forall (uc : unicode) (cfg : kt_config),
+  c15_plain C15kt (kt_prefix cfg) = true ->
+  c15_mappings_plain C15kt (kt_type_mappings cfg) = true ->
+  c15_plain C15kt (kt_package cfg) = true ->
+  c15_version_nested_ok (kt_version cfg) = true ->
+  forall pd text,
+  forallb (c15_item_strict C15kt Kotlin) (items_of pd) = true ->
+  Forall (fun it => Forall (fun d => safe_line eol_lf_cr d = true) (c15_item_docs it)) (items_of pd) ->
+  kt_generate uc cfg pd = Ok text ->
+  exists items parts,
+    topsort (items_of pd) = Ok items /\ Permutation items (items_of pd) /\
+    text = text_of (c15_file_pieces C15kt parts) /\
+    docs_of (c15_file_pieces C15kt parts) = flat_map c15_item_docs_helpers_first items /\
+    c15_contained C15kt LCode (mark (c15_file_pieces C15kt parts)) = true.
+Proof. exact Proofs.C15_KotlinFile.C15_kt_file_line_free. Qed.
+Print Assumptions C15_kt_file_line_free.
